@@ -105,7 +105,6 @@ class Number {
 inline Number parseNumber(const char* s) {
   using traits = FloatTraits<JsonFloat>;
   using mantissa_t = largest_type<traits::mantissa_type, JsonUInt>;
-  using exponent_t = traits::exponent_type;
 
   ARDUINOJSON_ASSERT(s != 0);
 
@@ -136,7 +135,7 @@ inline Number parseNumber(const char* s) {
     return Number();
 
   mantissa_t mantissa = 0;
-  exponent_t exponent_offset = 0;
+  int32_t exponent_offset = 0;  // up to one per character of the input
   const mantissa_t maxUint = JsonUInt(-1);
 
   while (isdigit(*s)) {
@@ -182,7 +181,7 @@ inline Number parseNumber(const char* s) {
     }
   }
 
-  int exponent = 0;
+  int32_t exponent = 0;
   if (*s == 'e' || *s == 'E') {
     s++;
     bool negative_exponent = false;
